@@ -319,6 +319,13 @@ class DictGen:
                 ok, v = lookup(pfx, o)
                 if ok and not isinstance(v, (dict, list)):
                     set_path(o, pfx, copy.deepcopy(empty))
+        if isinstance(o.get("LABREA"), dict) and self.cfg.get("labrea_keys"):
+            # (the reserved section keeps its shape: other mutations do not scribble into it)
+            o["LABREA"] = {k: {"DISABLED": bool(v.get("DISABLED"))} for k, v in o["LABREA"].items() if isinstance(v, dict) and isinstance(v.get("DISABLED"), bool)}
+            if not o["LABREA"]:
+                del o["LABREA"]
+        elif "LABREA" in o and self.cfg.get("labrea_keys"):
+            del o["LABREA"]
         for k in sorted(self.no_list_keys):
             # (hashable dispatch values: a whole-reference chain '{B}' -> '{L}' -> [...] hands the reader a list)
             cur, hops = k, 0
@@ -364,7 +371,7 @@ class DictGen:
 
     MUTATIONS = [
         "repeat", "repeat", "change", "change", "change", "delete", "add", "never", "permute",
-        "sibling", "template", "fresh", "section_replace", "listref",
+        "sibling", "template", "fresh", "section_replace", "listref", "labrea_switch",
     ]
 
     def mutate(self, prev, hint_read=None, hint_unread=None):
@@ -440,6 +447,15 @@ class DictGen:
             k = r.choice([x for x in SCALAR_KEYS if not (self.cfg.get("tmpl_preset") and x in PRESET_TEMPLATE_TARGETS)] or ["A"])
             o[k] = "{L}"
             o["L"] = [r.choice(["x{C}", "{B}", "{M}", "p{S.X}q"]), r.choice([0, "a"])]
+        elif m == "labrea_switch" and self.cfg.get("labrea_keys"):
+            # the reserved section itself is part of the dictionary (here: switches that do not touch caching)
+            lab = dict(o.get("LABREA") or {}) if isinstance(o.get("LABREA"), dict) else {}
+            which = r.choice(["LOGGING", "EFFECTS"])
+            if r.random() < 0.25 and lab:
+                o.pop("LABREA", None)
+            else:
+                lab[which] = {"DISABLED": r.choice([True, False])}
+                o["LABREA"] = lab
         elif m == "fresh":
             o = self.fresh()
             if r.random() < 0.3:
